@@ -578,6 +578,65 @@ def run(chk):
     rule_template_value_lookup(chk)
     rule_sizeof(chk)
     rule_template_defaults(chk)
+    rule_builtin_constants(chk)
+
+
+# HLSL's values of the built-in constants rssl pre-defines (DirectX Raytracing functional spec: RAY_FLAG, COMMITTED_STATUS,
+# CANDIDATE_TYPE). The names are written into the HLSL text as they are, so a folded value must be HLSL's.
+BUILTIN_CONSTANTS = {
+    "RAY_FLAG_NONE": 0x00, "RAY_FLAG_FORCE_OPAQUE": 0x01, "RAY_FLAG_FORCE_NON_OPAQUE": 0x02, "RAY_FLAG_ACCEPT_FIRST_HIT_AND_END_SEARCH": 0x04,
+    "RAY_FLAG_SKIP_CLOSEST_HIT_SHADER": 0x08, "RAY_FLAG_CULL_BACK_FACING_TRIANGLES": 0x10, "RAY_FLAG_CULL_FRONT_FACING_TRIANGLES": 0x20,
+    "RAY_FLAG_CULL_OPAQUE": 0x40, "RAY_FLAG_CULL_NON_OPAQUE": 0x80, "RAY_FLAG_SKIP_TRIANGLES": 0x100, "RAY_FLAG_SKIP_PROCEDURAL_PRIMITIVES": 0x200,
+    "RAY_FLAG_FORCE_OMM_2_STATE": 0x400,
+    "COMMITTED_NOTHING": 0, "COMMITTED_TRIANGLE_HIT": 1, "COMMITTED_PROCEDURAL_PRIMITIVE_HIT": 2,
+    "CANDIDATE_NON_OPAQUE_TRIANGLE": 0, "CANDIDATE_PROCEDURAL_PRIMITIVE": 1,
+}
+
+
+def rule_builtin_constants(chk):
+    """add_intrinsics walked by the reader (with an empty function table) on an empty module: every global it pre-defines
+    with a constant value carries the value HLSL gives that name."""
+    import interp as I
+    f = chk.facts
+    ai = chk.anchor("C13.anchor/add_intrinsics", f.fn("add_intrinsics", "rssl_ir"), "add_intrinsics")
+    if not ai:
+        return
+    tables = [k for k in f.bodies if k.endswith("intrinsic_data::INTRINSICS")]
+    saved = {k: f.bodies[k] for k in tables}
+    for k in tables:
+        f.bodies[k] = dict(saved[k], thir={"k": "Array", "elems": [], "ty": "[IntrinsicDefinition; 0]"})
+    try:
+        ip = I.Interp(f, max_depth=6, extern={"TypeRegistry::register_type": lambda a: I.Enum("TypeId", None, {"0": repr(a[1])})})
+        ip.max_loop = 256
+        mod = I.Enum("Module", None, {"global_registry": [], "type_registry": I.Opaque("types"), "function_registry": I.Opaque("functions")})
+        try:
+            ip.apply(ai, [mod])
+        except I.Unknown as e:
+            if not mod.fields["global_registry"]:
+                chk.note("C13.builtin: add_intrinsics is not readable (%s); not decided" % str(e)[:80])
+                return
+    finally:
+        f.bodies.update(saved)
+    n = 0
+    unknown = []
+    for g in mod.fields["global_registry"]:
+        nm = g.fields.get("name")
+        nm = nm.fields.get("node") if isinstance(nm, I.Enum) else nm
+        cv = g.fields.get("constexpr_value")
+        if not (isinstance(cv, I.Enum) and cv.variant == "Some"):
+            continue
+        c = cv.fields["0"]
+        val = c.fields.get("0") if isinstance(c, I.Enum) else c
+        if nm not in BUILTIN_CONSTANTS:
+            unknown.append(nm)
+            continue
+        n += 1
+        want = BUILTIN_CONSTANTS[nm]
+        chk.ob("C13.builtin/%s" % nm, val == want, "folds to %s, HLSL's value" % val if val == want else
+               "the built-in constant %s folds to %s (%r); in HLSL, where the name is written as it is, it is %s" % (nm, val, c, want), where(ai), sample={"name": nm, "value": val})
+    if unknown:
+        chk.note("C13.builtin: built-in constants outside the reference table, not decided: %s" % unknown[:6])
+    chk.floor("C13.floor/builtin-constants", n, 8, "built-in constants with a folded value", where(ai))
 
 
 def rule_template_defaults(chk):
